@@ -484,6 +484,14 @@ def handle (line : String) : String :=
   | ["concat", files] =>
     let fs := (Pure.lst files).map fun f => (if f.isEmpty then [] else f.splitOn ",").filterMap String.toNat?
     ",".intercalate ((Comp.concatFiles fs).map toString)
+  | ["concatg", files] =>
+    -- files: US-separated "tag RS b1,b2,.." (tag: a number, empty = no value for the tag)
+    let fs := (Pure.lst files).filterMap fun f => match f.splitOn Pure.RS with
+      | [t, bs] => some (t.toNat?, (if bs.isEmpty then [] else bs.splitOn ",").filterMap String.toNat?)
+      | _ => none
+    let r := Comp.concatGrouped fs
+    ",".intercalate (r.1.map toString) ++ Pure.US ++
+      Pure.US.intercalate (r.2.map fun (t, b) => toString t ++ Pure.RS ++ ",".intercalate (b.map toString))
   | ["proc.sem"] => s!"appendTail={procSem.appendTail};waitHead={procSem.waitHead};dequeueHead={procSem.dequeueHead};forwardOnDequeueOnly={procSem.forwardOnDequeueOnly}"
   | ["proc.search", n, depth] =>
     let r := ProcSearch.dfs procSem n.toNat! Proc.init 0 [] depth.toNat!
